@@ -144,8 +144,23 @@ pub fn gen_scenario(run_seed: u64, tier: Tier) -> E3Scenario {
         mixed_wildcard: rw.chance(1, 8),
         dirs: vec!["/p/src".into(), "/p/src/a".into(), "/p/src/a/b".into(), "/p/lib".into(), "/q".into()],
     };
-    let ops = wgen::gen_ops(&mut rw, &schema, &o);
-    let root = rw.below(ops.len());
+    let mut ops = wgen::gen_ops(&mut rw, &schema, &o);
+    let mut root = rw.below(ops.len());
+    // once in a while a long chain of imports (one fragment per file): depth is no limit
+    let mut r_deep = base.fork("deep_chain");
+    if r_deep.chance(1, 150) {
+        let n = 66 + r_deep.below(30);
+        let on = schema.types.iter().find(|t| t.kind == crate::model::Kind::Object).map(|t| t.name.clone()).unwrap_or("Query".into());
+        ops = (0..n)
+            .map(|i| OpFileModel {
+                path: format!("/p/chain/f{i}.graphql"),
+                imports: if i + 1 < n { vec![ImportLine { spelling: format!("./f{}.graphql", i + 1), target: Some(i + 1), names: if i % 2 == 0 { None } else { Some(vec![format!("ChainFrag{}", i + 1)]) } }] } else { vec![] },
+                defs: vec![crate::model::OpDef::Fragment { name: format!("ChainFrag{i}"), on: on.clone(), sel: vec![crate::model::SelItem::Field { alias: None, name: "__typename".into(), args: vec![], directive: None, sel: None }] }],
+                style: 0,
+            })
+            .collect();
+        root = 0;
+    }
     let mut files = Vec::new();
     for (i, f) in ops.iter().enumerate() {
         // gen_ops joins dir and stem with '/', dirs are absolute here
